@@ -142,6 +142,11 @@ def findContours (rows cols : Nat) (mask : List Bool) (outerOnly : Bool) : Res (
   | .panic => .panic
   | .nofuel => .nofuel
 
+/-- "`p` (image coordinates) is inside the `rows × cols` image and a foreground pixel". -/
+def maskAt (rows cols : Nat) (mask : List Bool) (p : Pt) : Bool :=
+  decide (0 ≤ p.1 ∧ p.1 < rows ∧ 0 ≤ p.2 ∧ p.2 < cols) &&
+    mask.getD (p.1.toNat * cols + p.2.toNat) false
+
 /-! ## Drawing -/
 
 def clampI (v lo hi : Int) : Int := if v < lo then lo else if v > hi then hi else v
